@@ -1,0 +1,30 @@
+//go:build verif
+
+package dig
+
+import (
+	"time"
+
+	"go.uber.org/dig/internal/digclock"
+	"go.uber.org/dig/internal/graph"
+)
+
+// Hooks for the verification harness in /verif. Compiled only with the
+// "verif" build tag; nothing here is referenced by the library itself.
+
+type verifGraph [][]int
+
+func (g verifGraph) Order() int            { return len(g) }
+func (g verifGraph) EdgesFrom(u int) []int { return g[u] }
+
+// VerifIsAcyclic runs internal/graph.IsAcyclic on an adjacency list.
+func VerifIsAcyclic(succ [][]int) (bool, []int) {
+	return graph.IsAcyclic(verifGraph(succ))
+}
+
+// VerifMockClock returns an Option installing a mock clock and the function
+// that advances it.
+func VerifMockClock() (Option, func(time.Duration)) {
+	m := digclock.NewMock()
+	return setClock(m), m.Add
+}
